@@ -267,7 +267,7 @@ class RefGrammar:
         ends = self._child_ends(self.rules[name], kids, 0, {})
         if len(kids) not in ends:
             desc = " ".join(c.symbol.format_as_spec() for c in kids)
-            problems.append((path, f"children of {name} [{desc[:200]}] are not an expansion of its rule"))
+            problems.append((path, f"children of {name} [{desc[:200]}] are not an expansion of its rule", {"node": tree, "name": name}))
         for i, c in enumerate(kids):
             self.check_tree(c, None, path + (i,), problems, limit)
         return problems
